@@ -82,3 +82,8 @@ package polling
 //@   callsite compressedReader skip
 //@   callsite DecodePayloads skip
 //@   callsite Close skip
+
+// C07 (client, long-polling): Discard is the pause of the reference client: it stops the poll loop and, when the loop
+// has been started, returns only after the loop has ended, i.e. after the request in flight has been answered and what
+// it carried has been handed to the callbacks. NOT under contract (channel wait on another goroutine's progress: a
+// liveness / schedule statement); demonstrated by /verif/replay/sio_c07_upgrade_race.go.tmpl.
